@@ -13,6 +13,7 @@ import IQE.Gen.Limit
 import IQE.Gen.Window
 import IQE.Gen.Compiled
 import IQE.Gen.FrontDoor
+import IQE.Gen.OptGates
 
 open IQE.Gen
 
@@ -192,4 +193,34 @@ def res (e : Except String DistMode) : Option DistMode × String :=
 #guard res (parse_mode "AUTO") == (none, "other")
 example : parse_value "0" = .ok .Off := by rfl
 example : res (parse_mode "off") = (some .Off, "") := by decide
+end
+
+/-! ## OptGates (C03): statistics gates of the optimizer rules -/
+section
+open IQE.Gen.OptGates
+-- is_unique_key: null_count == Some(0) && ndv_est >= row_count
+#guard unique_key_gate (some 0) (some 3) 3 == true
+#guard unique_key_gate (some 0) (some 2) 3 == false
+#guard unique_key_gate (some 1) (some 3) 3 == false
+#guard unique_key_gate none (some 3) 3 == false
+#guard unique_key_gate (some 0) none 3 == false
+-- ndv_est = min(non_null, max.abs_diff(min).saturating_add(1)) when max >= min
+#guard ndv_est_int (some 1) (some 5) 3 == some 3
+#guard ndv_est_int (some 1) (some 2) 3 == some 2
+#guard ndv_est_int (some 5) (some 1) 3 == none
+#guard ndv_est_int (some 1) none 3 == none
+#guard ndv_est_int (some (-9223372036854775808)) (some 9223372036854775807) 7 == some 7
+-- K = next power of two above the second key's maximum
+#guard pj_k 3 == some 4
+#guard pj_k 4 == some 8
+#guard pj_k 0 == some 1
+#guard pj_k 18446744073709551614 == none
+#guard pg_k 7 == 8
+#guard ea_k 8 == 16
+-- max1 * K + max2 > i64::MAX
+#guard pj_overflow 1 4 3 == false
+#guard pj_overflow 4611686018427387904 4 0 == true
+#guard pj_overflow 2305843009213693951 4 3 == false
+#guard pg_negative 0 (-1) == true
+#guard ea_negative 0 0 == false
 end
